@@ -55,3 +55,41 @@ Print Assumptions C08_source_diag_livelock_refuted.
 
 Example C08_source_diag_livelock_feasible_fraction : map d5_cons [[0]; [1]; [2]; [3]] = [true; false; true; true].
 Proof. exact d5_feasible_fraction. Qed.
+
+Require Import CoreGen CoreTie.
+From RecordUpdate Require Import RecordSet.
+Import RecordSetNotations.
+
+(* ---------- the loops GENERATED from /repo's core_optimizer.py (generated/CoreGen.v; ties in proofs/CoreTie.v) ---------- *)
+(* source move_random: rejected candidates first, then a feasible one: returned after one constraint evaluation per candidate *)
+Theorem C08_source_move_random_first_feasible : forall sp cons (rejected : list pos) (p : pos) (rest : tape) c,
+  Forall (fun q => in_box sp q /\ feasible sp cons q = Ok false) rejected -> in_box sp p -> feasible sp cons p = Ok true ->
+  forall fuel, (length rejected < fuel)%nat ->
+  g_core_move_random sp cons fuel (mkGCore (flat_map (map DZ) rejected ++ map DZ p ++ rest) c)
+    = Ok (mkGCore rest (c + Z.of_nat (length rejected) + 1), p).
+Proof. exact source_move_random_first_feasible. Qed.
+Print Assumptions C08_source_move_random_first_feasible.
+
+(* source move_climb: one pass of the loop suffices when the converted candidate is feasible *)
+Theorem C08_source_move_climb_exits_at_first_feasible : forall sp cons f self p0 xs t1 q t2 c2,
+  read_reals (length sp) (cg_tape self) = Ok (xs, t1) -> conv2pos sp cons (S f) xs t1 (cg_ncalls self) = Ok (q, t2, c2) ->
+  feasible sp cons q = Ok true -> g_core_move_climb sp cons (S f) self p0 = Ok (mkGCore t2 (c2 + 1), q).
+Proof. exact source_move_climb_exit. Qed.
+Print Assumptions C08_source_move_climb_exits_at_first_feasible.
+
+(* every retry of the source loops consumes fresh draws and evaluates the constraint: the tape left over is a suffix, the counter grows *)
+Theorem C08_source_move_climb_progress : forall sp cons fuel self p0 s' p, dims_ok sp -> nan_free (cg_tape self) ->
+  g_core_move_climb sp cons fuel self p0 = Ok (s', p) -> is_suffix (cg_tape s') (cg_tape self) /\ cg_ncalls self < cg_ncalls s'.
+Proof. intros sp cons fuel self p0 s' p Hd Hn H. destruct (source_move_climb_ok sp cons fuel self p0 s' p Hd Hn H) as [_ A]. exact A. Qed.
+Print Assumptions C08_source_move_climb_progress.
+
+(* the random-restart dispatch of the source is exactly: one uniform draw, then move_random or the decorated iterate *)
+Theorem C08_source_random_iteration_dispatch : forall sp cons rrp_m rrp_e body fuel self,
+  g_core_random_iteration sp cons rrp_m rrp_e body fuel self =
+  match cg_tape self with
+  | DF um ue :: t' => if dyadic_gt rrp_m rrp_e um ue then g_core_move_random sp cons fuel (self <| cg_tape := t' |>)
+                      else body (self <| cg_tape := t' |>)
+  | _ => Err OutOfTape
+  end.
+Proof. exact random_iteration_spec. Qed.
+Print Assumptions C08_source_random_iteration_dispatch.
